@@ -87,6 +87,7 @@ func c08Gen(t *rapid.T) c08Case {
 		}
 	}
 	c.Spec.Clients = []ClientSpec{cs}
+	c.Spec.Abandoned = genAbandoned(t)
 	return c
 }
 
@@ -140,6 +141,9 @@ func c08Classify(c *c08Case) (bool, []string) {
 	if len(stream) > 65536 {
 		cls = append(cls, "stream-over-64k")
 		inside += 2
+	}
+	if len(c.Spec.Abandoned) > 0 {
+		cls = append(cls, "after-clients-that-left-mid-request")
 	}
 	return inside >= 2 || (inside >= 1 && c.PrefixAt > 0), cls
 }
@@ -224,6 +228,7 @@ func c08Prefix(f *Fixture, c *c08Case) []Discrepancy {
 	f.Cluster.ResetLog()
 	f.Cluster.SetHandler(pi.handler(&gateSet{openAll: true}))
 	defer f.Cluster.SetHandler(nil)
+	abandon(f, c.Spec.Abandoned)
 	cl, err := rclient.Dial(f.Proxy.Addr(), "")
 	if err != nil {
 		return []Discrepancy{disc("C08/connect", "cannot connect: %v", err)}
